@@ -308,7 +308,7 @@ func vh_C01_layoutsigs(a []int) {
 }
 
 // vh_C15_keymaterial: a key whose declared type contradicts its material is an error, not a crash.
-// a = {declared type (0 rsa,1 ecdsa,2 ed25519), material (0 rsa,1 ecdsa,2 ed25519 hex,3 garbage,4 short hex,5 good public half with odd-sized private half), operation (0 verify,1 sign), wrapper}
+// a = {declared type (0 rsa,1 ecdsa,2 ed25519), material (0 rsa,1 ecdsa,2 ed25519 hex,3 garbage,4 short hex,5 good public half with odd-sized private half,6 wrong half of the declared algorithm in a field), operation (0 verify,1 sign), wrapper}
 func vh_C15_keymaterial(a []int) {
 	typ := []string{"rsa", "ecdsa", "ed25519"}[a[0]]
 	k := Key{KeyID: "abcd", KeyType: typ, Scheme: "x"}
@@ -324,10 +324,25 @@ func vh_C15_keymaterial(a []int) {
 		k.KeyVal = KeyVal{Public: "abcd", Private: vPick("short-private", "abcd", vhEdPriv1[:62], "")}
 	case 5:
 		k.KeyVal = KeyVal{Public: vhEdPub1, Private: vPick("odd-private", "abcd", vhEdPriv1[:64], vhEdPriv1+"00")}
+	case 6:
+		// material of the declared algorithm, but the wrong half in a field: a private key PEM as public
+		// part, and/or a public key PEM as private part
+		pub, priv := vhRsaPub, vhRsaPriv
+		if a[0] == 1 {
+			pub, priv = vhEcdsaPub, vhEcdsaPriv
+		}
+		switch vChoice("swapped", 3) {
+		case 0:
+			k.KeyVal = KeyVal{Public: priv, Private: ""}
+		case 1:
+			k.KeyVal = KeyVal{Public: priv, Private: pub}
+		default:
+			k.KeyVal = KeyVal{Public: pub, Private: pub}
+		}
 	default:
 		k.KeyVal = KeyVal{Public: "garbage", Private: "zz"}
 	}
-	if vBool("public-only") {
+	if a[1] != 6 && vBool("public-only") {
 		k.KeyVal.Private = ""
 	}
 	if a[0] == a[1] && a[0] != 2 {
@@ -349,6 +364,10 @@ func vh_C15_keymaterial(a []int) {
 	vObserve("keymaterial", err == nil)
 	if a[0] != a[1] && a[1] < 4 {
 		vAssert("C15.mismatched-key-material-is-an-error", err != nil)
+	}
+	if a[1] == 6 && (a[2] == 1 || k.KeyVal.Public != vhRsaPub && k.KeyVal.Public != vhEcdsaPub) {
+		// the half that the operation needs is not there
+		vAssert("C15.wrong-half-of-a-key-is-an-error", err != nil)
 	}
 	vReach("C15.end")
 }
